@@ -18,11 +18,13 @@
 (* found; result = align(value, alignment of the section the symbol lies in) with             *)
 (* align(x, a) = x + (a - x % a) % a  - the value ROUNDED UP to the section alignment.        *)
 (*                                                                                           *)
-(* TLC enumerates bounded images and checks Resolve(img) admissible.  On the whole domain it  *)
-(* exhibits the rounding (a symbol value that is not a multiple of its section's alignment    *)
-(* is resolved to a different address): Vdso_any.cfg; on images whose function symbols are    *)
-(* aligned to their section's alignment - what the kernel's link produces - it holds:         *)
-(* Vdso_aligned.cfg.  VdsoJudge.tla applies both levels to the REAL vDSO of the probe.        *)
+(* TLC enumerates bounded images and checks the resolution admissible.  For the walk AS FOUND  *)
+(* (ResolvePinned) it exhibits the rounding on the whole domain - a symbol value that is not a *)
+(* multiple of its section's alignment is resolved to another address (Vdso_any_pinned.cfg,    *)
+(* confirmed on the real function with variants of the kernel's own vDSO image and repaired in *)
+(* /repo) - and holds only on images whose symbols happen to be aligned (Vdso_aligned.cfg);    *)
+(* the repaired walk (Resolve) holds on the whole domain (Vdso_any.cfg).                       *)
+(* VdsoJudge.tla applies both levels to the REAL vDSO of the probes and to image variants.     *)
 EXTENDS Integers, Sequences, FiniteSets
 
 NotFound == -1
@@ -62,14 +64,19 @@ Scan(img, name, k, off, seen) ==
     ELSE IF img.sections[k].name = DYNSTR THEN Scan(img, name, k + 1, FindName(img.dynstr, name, 1), seen)
     ELSE IF img.sections[k].name = DYNSYM THEN Scan(img, name, k + 1, off, TRUE)
     ELSE Scan(img, name, k + 1, off, seen)
-Resolve(img, name) ==
+\* rounded = TRUE: the walk as found in the pinned tree (value rounded up to the section alignment);
+\* rounded = FALSE: after the repair (the symbol value itself)
+ResolveV(img, name, rounded) ==
     IF img.shstrndx = 0 THEN NotFound
     ELSE LET sc == Scan(img, name, 1, NotFound, FALSE)
          IN IF ~sc[2] \/ sc[1] = NotFound THEN NotFound
             ELSE LET j == FirstSym(img.dynsym, sc[1])
                  IN IF j = 0 THEN NotFound
+                    ELSE IF ~rounded THEN img.dynsym[j].value
                     ELSE IF img.dynsym[j].shndx + 1 \notin DOMAIN img.sections THEN Panicked   \* (SHN_ABS..: reads a header that is not there)
                     ELSE Align(img.dynsym[j].value, img.sections[img.dynsym[j].shndx + 1].align)
+Resolve(img, name) == ResolveV(img, name, FALSE)
+ResolvePinned(img, name) == ResolveV(img, name, TRUE)
 
 Multiple(x, a) == a # 0 /\ x % a = 0
 \* the images on which rounding cannot bite: every defined symbol's value is a multiple of the alignment of
